@@ -246,8 +246,10 @@ def trigger(rw, t, is_plain_class=lambda tree: True):
                 return True
         elif rw == "configDict":
             if all((not isinstance(m, str)) and m[0] == "dict" for m in ms):
-                return True
+                from .tyconv import canon
+                if len({dumps(canon(m[1])) for m in ms}) == 1:
+                    return True
         elif rw == "mscb":
-            if all(m == ANY or ((not isinstance(m, str)) and m[0] == "cls") for m in ms):
+            if all((not isinstance(m, str)) and m[0] == "cls" for m in ms):
                 return True
     return False
